@@ -509,9 +509,9 @@ func c18ContinueCompare(p *c18PkgRes, test string, a, b *c18Out, known map[strin
 		}
 		report := func(dmods []string, sig, detail string, upTo int) {
 			differs = true
-			// a difference in another module's final record, in a history whose import lost something listed
-			// in one of the package's own modules, is taken as a consequence of that loss as well
-			sg, attributed := c18Attribute(taintUpTo(upTo), known, append(append([]string(nil), dmods...), mods...), sig)
+			// attributed only along a causal path (c18Related) from the module of a listed loss reported by an
+			// import of this epoch to the module the difference is in
+			sg, attributed := c18Attribute(taintUpTo(upTo), known, dmods, sig)
 			if attributed {
 				hit("difference-attributed-to-listed-finding", 1)
 				hit("attributed/"+strings.TrimPrefix(sig, "C18/continue/")+"=>"+strings.TrimPrefix(sg, "C18/"), 1)
